@@ -179,8 +179,10 @@ def _write_evidence(mod, prop, tier, seed, acc, wall, nviol, fired, nshards):
         "violations": int(nviol),
         "repo_src": env.REPO_SRC,
     }
-    os.makedirs(os.path.join(VERIF, "evidence"), exist_ok=True)
-    path = os.path.join(VERIF, "evidence", f"{prop}.json")
+    # runs against another source tree (mutation runs) never touch the committed evidence
+    evdir = "evidence" if env.REPO_SRC == "/repo/src" else "evidence_mut"
+    os.makedirs(os.path.join(VERIF, evdir), exist_ok=True)
+    path = os.path.join(VERIF, evdir, f"{prop}.json")
     tmp = path + ".tmp"
     with open(tmp, "w") as fh:
         json.dump(ev, fh, indent=1, default=str)
